@@ -94,7 +94,7 @@ UNITS = [
 VERIFIED_CALLEES = ("adapt_typehints",)
 LEVEL = "other"
 TECHNIQUE = "contract-based deductive verification (VCs from the real AST of the Union arm, recursion by contract) + bounded run-time contract checking against an independent structural validator"
-LEVEL_TEXT = "under construction"
+LEVEL_TEXT = 'Proved on the real Union arm of adapt_typehints, for 2-3 members in every accept/reject pattern and both trial orders: a Union is accepted exactly when some member accepts (or the documented string fall-back applies) and the returned value is one produced by an accepting member, never an exception object (this refuted the shipped code; fixed). Bounded only: conformance and compositional acceptance for the whole type grammar (323 types incl. every Union permutation x value sets, independent structural validator).'
 LEVEL_NOTE = "under construction"
 EXPLANATION = "under construction"
 ASSUMPTIONS = []
